@@ -1207,17 +1207,29 @@ func (ex *Exec) prepareCall(fr *frame, c *ssa.CallCommon) (Value, []Value) {
 		if op, ok := recv.v.(*Opaque); ok && c.Method.Name() == "Error" {
 			return Native{"error.Error", func(ex *Exec, a []Value) Value { return ex.strConst("<" + op.name + ">") }}, nil
 		}
-		if _, ok := recv.v.(*WriterStub); ok {
+		if ws, ok := recv.v.(*WriterStub); ok {
 			mname := c.Method.Name()
 			for _, a := range c.Args {
 				args = append(args, ex.get(fr, a))
 			}
 			return Native{"pipe." + mname, func(ex *Exec, a []Value) Value {
+				cs, _ := ex.side["cmd"].(*cmdState)
 				switch mname {
 				case "Write":
 					return Tuple{a[0].(Slice).len, Iface{}}
 				case "Read":
-					ex.wait(func() bool { return false }, "helper silent")
+					_ = ws
+					ex.wait(func() bool { return cs == nil || cs.exited || len(cs.out) > 0 }, "helper silent")
+					if cs != nil && len(cs.out) > 0 {
+						b := cs.out[0]
+						cs.out = cs.out[1:]
+						dst := a[0].(Slice)
+						for i := range b {
+							ex.storeElem(dst.arr, ex.ts.Bin(OpAdd, dst.off, ex.ts.Const(64, uint64(i))), b[i])
+						}
+						return Tuple{ex.ts.Const(64, uint64(len(b))), Iface{}}
+					}
+					return Tuple{ex.ts.Const(64, 0), ex.ioEOF()}
 				case "Close":
 					return Iface{}
 				}
